@@ -225,7 +225,8 @@ def decodePei : P (List Nat) := fun c => peiLoop (c.bits.length + 1) [] c
 def prevOptions (prev : Option PicHdr) : Nat := match prev with | some p => p.options | none => 0
 
 /-- the format of the previous picture differs from this header's (then reference picture resampling parameters must follow) -/
-def formatChanged (prev : Option PicHdr) (fmt : Option SrcFmt) : Bool := match prev with | some p => p.format != fmt | none => false
+def formatChanged (prev : Option PicHdr) (fmt : Option SrcFmt) : Bool :=
+  match prev with | some p => p.format.isSome && fmt.isSome && p.format != fmt | none => false
 
 /-- `decode_picture` -/
 def decodePicture (d : DecOpts) (prev : Option PicHdr) : P (Option PicHdr) :=
